@@ -10,12 +10,6 @@ import CtyModel.Lemmas.SetRefineAlg
 namespace CtyModel
 open Value
 
-/-- the function inside `(ctyRules e).less` -/
-def ctyLessB (e : Ty) (a b : Payload) : Bool :=
-  match Value.setLess e a b with
-  | .ok r => r
-  | _ => false
-
 theorem ctyRules_less (e : Ty) : (ctyRules e).less = some (ctyLessB e) := rfl
 
 theorem not_isMarked_of_clean {p : Payload} (h : p.containsMarked = false) : p.isMarked = false := by
